@@ -244,6 +244,30 @@ theorem merge_surgery_order_disp (l ms ds : List Cmd) (g d : Cmd) (out : List Cm
     out.idxOf d < out.idxOf b :=
   surgery_order_disp l ms ds g d out q hf hd hq hregs hb ha hbq ham hbm
 
+/-- **surgery, cancelling block.**  When the merged commands compose to the identity nothing is emitted and
+`new_DAG` has the edges `surgeryEdgesNil l ms` (staying edges, and every predecessor of a merged command connected
+to every successor of one).  In every list in which these edges point forward, two commands that stay and share a
+wire keep their order — for all circuits and all member sets. -/
+theorem merge_surgery_cancelled_order (l ms out : List Cmd) (hf : forward (surgeryEdgesNil l ms) out = true)
+    (a b : Cmd) (hb : Before l a b) (hd : dep a b) (ha : a ∉ ms) (hbm : b ∉ ms) :
+    out.idxOf a < out.idxOf b :=
+  surgeryNil_order l ms out hf hb hd ha hbm
+
+/-- the predecessor → successor edges are needed: with only the staying edges (the merged nodes "simply removed")
+`Vgate | q0; CKgate | (q0,q1); Rgate(a) | q1; Rgate(−a) | q1; Vgate | q1` admits the order in which the last
+`Vgate` is emitted before the `CKgate` it does not commute with (seeded change C11-a2) -/
+def cSrc : List Cmd :=
+  [ { id := 0, cls := "Vgate", regs := [0] }, { id := 1, cls := "CKgate", regs := [0, 1] },
+    { id := 2, cls := "Rgate", regs := [1] }, { id := 3, cls := "Rgate", regs := [1] },
+    { id := 4, cls := "Vgate", regs := [1] } ]
+theorem merge_cancelled_without_bridging_counterexample :
+    forward ((dagEdges cSrc).filter fun e => !([cSrc[2]!, cSrc[3]!].contains e.1) && !([cSrc[2]!, cSrc[3]!].contains e.2))
+      [cSrc[4]!, cSrc[0]!, cSrc[1]!] = true ∧
+    forward (surgeryEdgesNil cSrc [cSrc[2]!, cSrc[3]!]) [cSrc[4]!, cSrc[0]!, cSrc[1]!] = false ∧
+    forward (surgeryEdgesNil cSrc [cSrc[2]!, cSrc[3]!]) [cSrc[0]!, cSrc[1]!, cSrc[4]!] = true ∧
+    checkMerge cSrc [cSrc[4]!, cSrc[0]!, cSrc[1]!] [⟨[2, 3], []⟩] [.keep 4, .keep 0, .keep 1, .block 0] = false := by
+  decide
+
 /-- the pre-fix surgery on `sMZgate | (4,1); Dgate | 4; MeasureFock | (1,3)`: the block emitted displacement
 gates, so the measurement got no edge from it and was sorted in front — rejected by the checker for either
 placement of the block -/
